@@ -446,3 +446,5 @@ for _p in SPECS:
         for _t in SVC_TB:
             if _t not in SPECS[_p]["trusted_base"]:
                 SPECS[_p]["trusted_base"] = list(SPECS[_p]["trusted_base"]) + [_t]
+for _p in ("C04", "C11", "C13", "C18"):
+    _need(_p, ["Model/Handler.v", "Proofs/HandlerInv.v", "Model/Limiter.v", "Proofs/Limiter.v", "Proofs/RecvHandler.v"])
